@@ -431,8 +431,10 @@ class Evaluator:
     def _name(self, name, at, restrict):
         if name in self.bound:
             return self.bound[name]
-        if name in ("self", "cls") and name in self._params:
+        if name == "self" and name in self._params:
             return self._sym("self", self.self_type)
+        if name == "cls" and name in self._params:
+            return self._sym("cls", self.self_type)
         if name in self._local_names or name in self._params:
             if at is None:
                 if getattr(self, "_spec_mode", False) and name in self._params and name not in self._local_names:
@@ -838,7 +840,7 @@ class Evaluator:
     def _attr(self, base, attr):
         c = self.ctx
         h = c.head_of(base)
-        if h and h[0] == "sym" and not h[1].startswith(("param:", "self", "fn:", "cls:", "localfn:")) \
+        if h and h[0] == "sym" and not h[1].startswith(("param:", "self", "fn:", "cls", "localfn:")) \
                 and c.type_of(base) is None:
             # dotted module path: np.linalg.norm
             return self._sym(f"{h[1]}.{attr}")
@@ -922,7 +924,7 @@ class Evaluator:
             if m == "__class__":
                 return self._new(c.type_of(recv) or "?", pos, kws, base=recv)
             is_module = rh and rh[0] == "sym" and c.type_of(recv) is None and \
-                not rh[1].startswith(("param:", "self", "localfn:", "fn:", "cls:"))
+                not rh[1].startswith(("param:", "self", "localfn:", "fn:", "cls"))
             if not is_module:
                 return self._method_call(recv, m, pos, kws, star)
             fname = f"{rh[1]}.{m}"
@@ -948,8 +950,11 @@ class Evaluator:
         c = self.ctx
         if fname in ("self", ) or fname.startswith("param:cls"):
             pass
-        if fname == "self":      # cls(...) inside a classmethod
+        if fname == "cls":      # cls(...) inside a classmethod
             return self._new(self.self_type or "?", pos, kws)
+        if fname == "self" and self.self_type:
+            return c.mk(("call", f"{self.self_type.split('.')[-1]}.__call__", len(pos) + 1, ()),
+                        [self._sym("self", self.self_type)] + pos)
         if fname in ("df.Field", "df.Mesh", "df.Region", "df.Line", "df.FieldRotator"):
             return self._new(CLASS_OF[fname[3:]], pos, kws)
         if fname.startswith("cls:"):
